@@ -101,6 +101,12 @@ def scenarios():
                                                         ("send", "s", "a1"), ("send", "s", "a2")],
                                               "bob": [("open_t", "s", "alice", 0, 0.0, True), ("open", "sync", "alice", 1, False), ("send", "sync", "go"),
                                                       ("open", "s", "alice", 0, False), ("recv", "s"), ("recv", "s")]}
+    # a connect that timed out, a successful retry while the error of the first attempt is still held, then the error is let go:
+    # the half-built socket of the first attempt is finalized while the second one is in use - which stays connected
+    S["retry-while-the-timeout-error-is-held"] = {
+        "alice": [("open", "sync", "bob", 1, False), ("recv", "sync"), ("open", "s", "bob", 0, False), ("recv", "s"), ("send", "s", "a1"), ("send", "s", "a2")],
+        "bob": [("open_t", "s", "alice", 0, 0.0, False, True), ("open", "sync", "alice", 1, False), ("send", "sync", "go"),
+                ("open", "s", "alice", 0, False), ("drop_error",), ("send", "s", "b1"), ("recv", "s"), ("recv", "s")]}
     # a complete session: both sides open, talk, close
     S["open-talk-close"] = {"alice": [("open", "s", "bob", 0, False), ("recv", "s"), ("close", "s")],
                             "bob": [("open", "s", "alice", 0, False), ("send", "s", "b1"), ("close", "s")]}
@@ -221,6 +227,15 @@ class Endpoint:
                     if isinstance(e, (vs.SchedBound, vs.SchedDeadlock)):
                         raise
                     s.record(("ret", me, "open_t", sn, f"{type(e).__name__}", present))
+                    if len(op) > 6 and op[6]:
+                        # the application holds on to the error for a while (it retries inside its except block, it logs the
+                        # error later): the half-built socket of the failed attempt lives as long as the traceback does
+                        self.kept_error = e
+                continue
+            if k == "drop_error":
+                import gc
+                self.kept_error = None
+                gc.collect()
                 continue
             if k == "bopen":
                 s.record(("call", me, "bopen"))
@@ -470,8 +485,17 @@ def judge(script, s: vs.Scheduler):
             if res == "ok":
                 sends.setdefault((me, remote, sid), []).append(mid)
             elif res == "ConnectionError":
-                # refusing is legitimate only when the peer is not connected (yet / any more)
-                pass
+                # refusing is legitimate only when the peer is not connected (yet / any more): not when both endpoints had
+                # opened this socket id before the send was called and neither of them has closed anything
+                ci = next((j for j in range(i, -1, -1) if log[j][:3] == ("call", me, "send") and log[j][3:6] == (remote, sid, mid)), i)
+                names = {}
+                for e in log[:ci]:
+                    if e[0] == "call" and e[2] in ("open", "open_log"):
+                        names[(e[1], e[3])] = (e[4], e[5])
+                both = {(e[1],) + names.get((e[1], e[3]), (None, None)) for e in log[:ci] if e[0] == "ret" and e[2] in ("open", "open_log") and e[4] == "ok"}
+                if (me, remote, sid) in both and (remote, me, sid) in both and not any(e[0] == "call" and e[2] == "close" and e[1] in (me, remote) for e in log[:ci]):
+                    return (f"send of {mid!r} by {me} to {remote} (socket id {sid}) was refused with ConnectionError although both ends had "
+                            f"opened that socket and neither had closed it")
             else:
                 return f"send of {mid} by {me} raised {res}"
         elif ev[0] == "call" and ev[2] in ("recv_nb", "recv_t0"):
